@@ -241,6 +241,15 @@ func (e *Engine) invoke(st *State, fr *Frame, recv Val, m *types.Func, args []Va
 		}
 		return
 	}
+	if tn := typeName(recv.T); (tn == "error" && m.Name() == "Error") || (m.Name() == "String" && m.Type().(*types.Signature).Params().Len() == 0) {
+		// message text of an error / Stringer (used for logging and error wrapping): an opaque string; like fmt.Errorf
+		// (DESIGN 2.4) it is treated as free of side effects
+		st.note("error.Error()/String() of an unknown dynamic type: opaque text, assumed free of side effects")
+		e.stats["text:"+tn+"."+m.Name()]++
+		res := freshVal(m.Type().(*types.Signature).Results().At(0).Type(), "txt")
+		e.bindResult(fr, bind, res)
+		return
+	}
 	e.opaqueCall(st, fr, "interface method "+typeName(recv.T)+"."+m.Name(), m.Type().(*types.Signature), append([]Val{recv}, args...), in, bind)
 }
 
